@@ -30,6 +30,13 @@ func registerPure() {
 		}
 		return checkRetarget(c)
 	})
+	pbt.RegisterReplay("testnet_rule", func(raw json.RawMessage) error {
+		var c testnetCase
+		if err := json.Unmarshal(raw, &c); err != nil {
+			return err
+		}
+		return checkTestnetRule(c)
+	})
 	pbt.RegisterReplay("mtp", func(raw json.RawMessage) error {
 		var c []uint32
 		if err := json.Unmarshal(raw, &c); err != nil {
@@ -115,8 +122,8 @@ func checkRetarget(c retargetCase) error {
 	ch.Consensus.MaxPOWValue = new(big.Int).Set(limit)
 	last := int(c.LastH)
 	first := last - (window - 1)
-	if first < 1 {
-		first = 1
+	if first < 0 {
+		first = 0
 	}
 	for i := first; i <= last; i++ {
 		setNode(i, c.FirstT, c.Bits)
@@ -191,6 +198,135 @@ func TestRetarget(t *testing.T) {
 		}
 		r.Case(c)
 		if err := checkRetarget(c); err != nil {
+			r.Failf("%v", err)
+		}
+	})
+}
+
+// ---------------------------------------------------------------------------------------------
+
+// The retargeting rule of the test networks (gocoin tells them by bytes of the genesis hash): a block more than 20
+// minutes after its parent carries the proof-of-work limit, any other block the target of the last block that did
+// not use that exception; on testnet4 a retarget starts from the target of the period's first block (BIP94).
+type testnetCase struct {
+	Testnet4  bool   `json:"testnet4"`
+	LimitBits uint32 `json:"limit_bits"`
+	Bits      uint32 `json:"bits"`     // the period's real target
+	LastH     uint32 `json:"last_h"`   // height of the parent block
+	MinTail   int    `json:"min_tail"` // that many blocks ending with the parent carry the limit as their target
+	ParentT   uint32 `json:"parent_time"`
+	Delta     int64  `json:"delta"` // new block's timestamp - parent's timestamp
+	Span      int64  `json:"span"`  // parent's time - time of the first block of the window
+}
+
+func checkTestnetRule(c testnetCase) error {
+	buildChains()
+	limit, _, _ := consensus.SetCompact(c.LimitBits)
+	p := &consensus.Params{PowLimit: limit, PowLimitBits: c.LimitBits, AllowMinDifficulty: true, BIP94: c.Testnet4}
+	gh := bytes.Repeat([]byte{0x11}, 32)
+	gh[0] = 0x43
+	if c.Testnet4 {
+		gh[1] = 0xf0
+	}
+	ch := &chain.Chain{Genesis: btc.NewUint256(gh)}
+	ch.Consensus.MaxPOWBits = c.LimitBits
+	ch.Consensus.MaxPOWValue = new(big.Int).Set(limit)
+	last := int(c.LastH)
+	first := last - (window - 1)
+	if first < 0 {
+		first = 0
+	}
+	for i := first; i <= last; i++ {
+		bits := c.Bits
+		if i > last-c.MinTail {
+			bits = c.LimitBits
+		}
+		setNode(i, uint32(int64(c.ParentT)-c.Span), bits)
+	}
+	b := c.Bits
+	if c.MinTail > 0 {
+		b = c.LimitBits
+	}
+	setNode(last, c.ParentT, b)
+	if first > 0 {
+		setNode(first-1, uint32(int64(c.ParentT)-c.Span), c.Bits)
+	}
+	ts := uint32(int64(c.ParentT) + c.Delta)
+	got := ch.GetNextWorkRequired(gchain[last], ts)
+	want := consensus.NextWorkRequiredAt(rchain[last], p, ts)
+	if got != want {
+		return fmt.Errorf("test network (testnet4=%v): required bits for a block %d s after its parent at height %d (period target %08x, limit %08x, the last %d blocks at the limit, window timespan %d): gocoin %08x, reference %08x",
+			c.Testnet4, c.Delta, c.LastH, c.Bits, c.LimitBits, c.MinTail, c.Span, got, want)
+	}
+	return nil
+}
+
+func TestTestnetRule(t *testing.T) {
+	pbt.Check(t, pbt.Cfg{Name: "testnet_rule", Quick: 30000, Thorough: 1000000}, func(r *pbt.Run) {
+		t := r.T
+		c := testnetCase{Testnet4: rapid.Bool().Draw(t, "testnet4")}
+		c.LimitBits = rapid.SampledFrom([]uint32{0x1d00ffff, 0x207fffff, 0x1e0fffff}).Draw(t, "limit")
+		limit, _, _ := consensus.SetCompact(c.LimitBits)
+		c.Bits = c.LimitBits
+		if rapid.IntRange(0, 5).Draw(t, "real") != 0 {
+			m := new(big.Int).Rsh(limit, uint(rapid.IntRange(1, 60).Draw(t, "shift")))
+			m.Sub(m, big.NewInt(int64(rapid.IntRange(0, 1<<16).Draw(t, "sub"))))
+			if m.Sign() <= 0 {
+				m = big.NewInt(1)
+			}
+			c.Bits = consensus.GetCompact(m)
+		}
+		tt := int64(consensus.TargetTimespan)
+		if rapid.IntRange(0, 3).Draw(t, "boundary") == 0 {
+			c.LastH = uint32(window*rapid.IntRange(1, 2).Draw(t, "k") - 1)
+			c.Span = rapid.SampledFrom([]int64{tt / 4, tt/4 - 1, tt, tt * 2, tt * 4, tt*4 + 1, tt / 2}).Draw(t, "span")
+			r.Class("at-boundary")
+		} else {
+			c.LastH = uint32(rapid.IntRange(1, 2*window-2).Draw(t, "h"))
+			if (c.LastH+1)%window == 0 {
+				c.LastH--
+			}
+			c.Span = tt
+			r.Class("off-boundary")
+		}
+		switch rapid.IntRange(0, 4).Draw(t, "tail") {
+		case 0:
+		case 1:
+			c.MinTail = 1
+		case 2: // up to the start of the period, just before it, beyond it
+			c.MinTail = int(c.LastH%window) + rapid.IntRange(-1, 2).Draw(t, "d")
+		default:
+			c.MinTail = rapid.IntRange(1, 2*window).Draw(t, "n")
+		}
+		if c.MinTail < 0 {
+			c.MinTail = 0
+		}
+		c.ParentT = uint32(rapid.IntRange(1300000000, 1800000000).Draw(t, "t0"))
+		switch rapid.IntRange(0, 3).Draw(t, "dsel") {
+		case 0, 1:
+			c.Delta = 1200 + int64(rapid.IntRange(-2, 2).Draw(t, "d"))
+		case 2:
+			c.Delta = int64(rapid.IntRange(-7200, 7200).Draw(t, "delta"))
+		default:
+			c.Delta = int64(rapid.SampledFrom([]int{0, 1, 599, 600, 601, 1199, 1200, 1201, 2400, 100000}).Draw(t, "delta"))
+		}
+		r.Case(c)
+		switch {
+		case c.Delta == 1200:
+			r.Class("exactly_20_minutes")
+		case c.Delta > 1200:
+			r.Class("more_than_20_minutes")
+		default:
+			r.Class("less_than_20_minutes")
+		}
+		if c.MinTail > 0 && c.Bits != c.LimitBits {
+			r.Class("parent_used_the_exception")
+			r.NonTrivial()
+		}
+		if c.MinTail > int(c.LastH%window) {
+			r.Class("exception_blocks_back_to_the_period_start")
+		}
+		if err := checkTestnetRule(c); err != nil {
 			r.Failf("%v", err)
 		}
 	})
